@@ -2,5 +2,6 @@ SPECIFICATION Spec
 CONSTANTS MaxDepth = 7
           MaxAfterErr = 2
 CONSTRAINT Bound
+ACTION_CONSTRAINT EmitStep
 INVARIANTS Located ErrorAbsorbing ErrorNeverAccepted Nesting NoNullHandler StopIsRoot ZeroIsError
 CHECK_DEADLOCK FALSE
